@@ -1,0 +1,65 @@
+//go:build verif
+
+package litestream
+
+import "context"
+
+// This file exists only under the `verif` build tag. It exposes read-only
+// views of unexported replication state and thin entry points to unexported
+// decision functions so that an external verification harness can compare
+// them with a formal model. Nothing here is compiled into normal builds.
+
+// VerifSyncState is a copy of the DB's in-memory sync state.
+type VerifSyncState struct {
+	LastSyncedWALOffset   int64
+	SyncedToWALEnd        bool
+	SyncedSinceCheckpoint bool
+	TruncatePassiveFailed bool
+}
+
+// VerifSyncState returns a copy of the current in-memory sync state.
+func (db *DB) VerifSyncState() VerifSyncState {
+	db.mu.RLock()
+	defer db.mu.RUnlock()
+	return VerifSyncState{
+		LastSyncedWALOffset:   db.syncState.lastSyncedWALOffset,
+		SyncedToWALEnd:        db.syncState.syncedToWALEnd,
+		SyncedSinceCheckpoint: db.syncState.syncedSinceCheckpoint,
+		TruncatePassiveFailed: db.syncState.truncatePassiveFailed,
+	}
+}
+
+// VerifSyncInfo mirrors syncInfo, the decision taken by verify.
+type VerifSyncInfo struct {
+	Offset              int64
+	Salt1, Salt2        uint32
+	PrevCommit          uint32
+	Snapshotting        bool
+	Reason              string
+	ClearSyncedToWALEnd bool
+}
+
+// VerifVerify runs the unexported verify step against a copy of the current
+// sync state (the copy is discarded) and returns its decision.
+func (db *DB) VerifVerify(ctx context.Context) (VerifSyncInfo, error) {
+	if err := db.lockExec(ctx); err != nil {
+		return VerifSyncInfo{}, err
+	}
+	defer db.execSem.Release(1)
+	db.mu.RLock()
+	state := db.syncState
+	db.mu.RUnlock()
+	info, err := db.verify(ctx, &state)
+	return VerifSyncInfo{
+		Offset: info.offset, Salt1: info.salt1, Salt2: info.salt2, PrevCommit: info.prevCommit,
+		Snapshotting: info.snapshotting, Reason: info.reason, ClearSyncedToWALEnd: info.clearSyncedToWALEnd,
+	}, err
+}
+
+// VerifCalcWALSize exposes calcWALSize.
+func VerifCalcWALSize(pageSize, pageN uint32) int64 { return calcWALSize(pageSize, pageN) }
+
+// VerifExceedsTruncateThreshold exposes exceedsTruncateThreshold.
+func (db *DB) VerifExceedsTruncateThreshold(walSize int64) bool {
+	return db.exceedsTruncateThreshold(walSize)
+}
